@@ -131,13 +131,14 @@ def gen_events(rng, ft, TR, mo, kind, quantum):
     elif kind == "ends":            # both ends of the run
         on = snap(np.concatenate((rng.uniform(fmin, fmin + TR, m), rng.uniform(fmax - TR, fmax + TR / 2, m))))
         du = snap(rng.choice([0.0, 0.0, TR / 2], 2 * m))
-    va = rng.integers(-3, 6, len(on)).astype(float)
-    va[va == 0] = 2.0
+    va = rng.integers(-3, 6, len(on)).astype(float)      # amplitude 0 is a legal value (mean-centred modulators)
+    if kind == "zeroamp":           # every event of the condition has amplitude exactly 0
+        va[:] = 0.0
     p = rng.permutation(len(on))
     return on[p], du[p], va[p]
 
 
-KINDS = ["plain", "coincident", "prescan", "pastend", "zerodur", "ongrid", "late", "early", "ends"]
+KINDS = ["plain", "coincident", "prescan", "pastend", "zerodur", "ongrid", "late", "early", "ends", "zeroamp"]
 
 
 def exact_grids(ck):
@@ -375,6 +376,182 @@ def sec_convolve(ck, hm, dm, ep):
                         "in listing order %s)" % (m["tolerance"], m["hrf_model"], len(m["onsets"]), len(set(m["con_id"])), m["con_id"]), m)
                 break
     ck.section("convolve", cases=len(terms))
+
+
+# ------------------------------------------------------------------ section: _full_rank
+def sec_full_rank(ck, dm):
+    """design_matrix._full_rank on full-rank and on singular matrices of all shapes: a full-rank matrix is returned unchanged with its
+    condition number; a singular one is moved by lda * U.V only (lda = (s_max - cmax*s_min)/(cmax - 1) ~ 1e-15 s_max): same shape, every
+    entry within ~1e-14 s_max, singular values s + lda, condition number cmax."""
+    rng = ck.rng("fullrank")
+    nfr = 0
+    for i in range(ck.n(80, 400)):
+        n = int(rng.integers(3, 30)); p = int(rng.integers(1, 9))
+        A = rng.standard_normal((n, p)) * 10.0 ** rng.integers(-3, 4, (1, p))
+        kind = ["full-rank", "duplicate-column", "zero-column", "ones-and-constant", "linear-combination", "wide", "scaled-copy",
+                "fortran-order", "ill-conditioned-below-threshold"][i % 9]
+        if kind == "duplicate-column" and p > 1:
+            A[:, -1] = A[:, 0]
+        elif kind == "zero-column":
+            A[:, int(rng.integers(0, p))] = 0.0
+        elif kind == "ones-and-constant" and p > 1:
+            A[:, 0] = 1.0; A[:, -1] = 1.0
+        elif kind == "linear-combination" and p > 2:
+            A[:, -1] = 2 * A[:, 0] - 3 * A[:, 1]
+        elif kind == "wide":
+            A = rng.standard_normal((p, n + p))
+        elif kind == "scaled-copy" and p > 1:
+            A[:, -1] = -1e3 * A[:, 0]
+        elif kind == "fortran-order":
+            A = np.asfortranarray(A)
+            if p > 1:
+                A[:, -1] = A[:, 0]
+        elif kind == "ill-conditioned-below-threshold" and p > 1:
+            A[:, -1] = A[:, 0] + 1e-9 * rng.standard_normal(n)
+        A0 = A.copy()
+        s = np.linalg.svd(A, compute_uv=False)
+        smax, smin = s.max(), s.min()
+        singular = smin * 1e15 <= smax * (1 + 1e-3)
+        near = (not singular) and smin * 1e15 <= smax * 1e3
+        rep = {"kind": kind, "shape": list(A.shape), "matrix": A0.tolist() if A0.size <= 80 else "see generator case %d" % i,
+               "singular_values": s.tolist(), "fortran_order": bool(A.flags.f_contiguous and not A.flags.c_contiguous)}
+        try:
+            R, c = guarded(ck, "_full_rank", rep, dm._full_rank, A)
+        except ImplRaised:
+            continue
+        nfr += 1
+        ck.count(("fullrank", i, kind, A.shape), bucket="full_rank:%s:%s" % (kind, "singular" if singular else "full-rank"))
+        R = np.asarray(R)
+        if not np.array_equal(A, A0):
+            ck.fail("full_rank/mutates-input", "_full_rank changed its argument in place", rep)
+        if R.shape != A0.shape:
+            ck.fail("full_rank/shape", "_full_rank returns shape %s for an input of shape %s" % (R.shape, A0.shape), rep)
+            continue
+        if near:
+            continue
+        if not singular:
+            if not np.array_equal(R, A0) or abs(c - smax / smin) > 1e-6 * smax / smin:
+                ck.fail("full_rank/full-rank-changed", "_full_rank changed a full-rank matrix (cond %g) or reports condition number %g" % (smax / smin, c), rep)
+            continue
+        lda = (smax - 1e15 * smin) / (1e15 - 1)
+        d = float(np.max(np.abs(R - A0)))
+        if d > 4 * abs(lda) + 1e-13 * smax:
+            ck.fail("full_rank/regularised-matrix-far-from-input", "_full_rank moved a singular %dx%d matrix (%s) by %g; the regularisation "
+                    "U.diag(s + lda).V with lda = %g may move an entry by at most ~lda" % (A0.shape[0], A0.shape[1], kind, d, lda), dict(rep, returned=R.tolist() if R.size <= 80 else None))
+        s2 = np.linalg.svd(R, compute_uv=False)
+        if np.max(np.abs(np.sort(s2) - np.sort(s + lda))) > 1e-9 * smax + 4 * abs(lda):
+            ck.fail("full_rank/regularised-singular-values", "singular values after regularisation are not s + lda", rep)
+        if c != 1e15:
+            ck.fail("full_rank/reported-condition", "_full_rank reports condition %r for a regularised matrix (documented: cmax)" % (c,), rep)
+    ck.section("full_rank", cases=nfr)
+
+
+# ------------------------------------------------------------------ section: repeated calls / object reuse
+def _snap(x):
+    if isinstance(x, (list, tuple)):
+        return [_snap(v) for v in x]
+    if isinstance(x, np.ndarray):
+        return x.copy()
+    return x
+
+
+def _arrays(x):
+    if isinstance(x, np.ndarray):
+        return [x]
+    if isinstance(x, (list, tuple)):
+        return [a for v in x for a in _arrays(v)]
+    return []
+
+
+def _same(a, b):
+    if isinstance(a, (list, tuple)):
+        return isinstance(b, (list, tuple)) and len(a) == len(b) and all(_same(x, y) for x, y in zip(a, b))
+    if isinstance(a, np.ndarray):
+        return isinstance(b, np.ndarray) and a.shape == b.shape and np.array_equal(a, b, equal_nan=True)
+    return a == b
+
+
+def sec_state(ck, hm, dm, ep):
+    """Multi-step sequences on the same arguments / objects: every function of the anchored modules must return the same value when it
+    is called again after the caller modified the previously returned arrays in place (kernels normalised for a plot, regressors
+    rescaled, ...), must not hand out memory it keeps (two results never share memory), and must leave its array arguments unchanged."""
+    rng = ck.rng("state")
+    ncall = 0
+    ft = 2.0 * np.arange(12)
+    on, du, va = np.array([3.0, 11.5, 4.0]), np.array([0.0, 2.0, 1.0]), np.array([1.0, -2.0, 0.5])
+    calls = []
+    for tr in (2.0, 1.0, 0.5, 2.5):
+        for osamp in (16, 1, 8):
+            for name in ("spm_hrf", "glover_hrf", "spm_time_derivative", "glover_time_derivative", "spm_dispersion_derivative"):
+                calls.append((name + "(tr=%g, oversampling=%d)" % (tr, osamp), getattr(hm, name), (tr, osamp), {}))
+            calls.append(("_gamma_difference_hrf(%g, %d)" % (tr, osamp), hm._gamma_difference_hrf, (tr, osamp), {}))
+            for model in MODELS:
+                calls.append(("_hrf_kernel(%r, %g, %d)" % (model, tr, osamp), hm._hrf_kernel, (model, tr, osamp, [0, 2]), {}))
+    for model in MODELS:
+        calls.append(("compute_regressor(%r)" % model, hm.compute_regressor, ((on, du, va), model, ft), {"fir_delays": [0, 1]}))
+        calls.append(("_sample_condition", hm._sample_condition, ((on, du, va), ft), {}))
+    for fts in (ft, 0.5 + ft):
+        calls.append(("_cosine_drift", dm._cosine_drift, (9.0, fts), {}))
+        calls.append(("_poly_drift", dm._poly_drift, (3, fts), {}))
+        calls.append(("_blank_drift", dm._blank_drift, (fts,), {}))
+        for dmodel in ("cosine", "polynomial", "blank"):
+            calls.append(("_make_drift(%r)" % dmodel, dm._make_drift, (dmodel, fts, 2, 9.0), {}))
+    par = ep.BlockParadigm(["a", "b", "a"], on, du, va)
+    parE = ep.EventRelatedParadigm(["a", "b", "a"], on, va)
+    add = rng.standard_normal((12, 2))
+    for model in MODELS:
+        for pr in (par, parE):
+            calls.append(("_convolve_regressors(%r)" % model, dm._convolve_regressors, (pr, model, ft, [0, 1]), {}))
+            calls.append(("dmtx_light(%r)" % model, dm.dmtx_light, (ft, pr, model, "cosine", 9.0, 1, [0, 1], add), {}))
+    for label, fn, args, kw in calls:
+        a0 = _snap(args)
+        rep = {"call": label, "sequence": "r1 = f(args); r1 *= 3 (in place, every returned array); r2 = f(args)"}
+        try:
+            with warnings.catch_warnings():
+                warnings.simplefilter("ignore")
+                r1 = fn(*args, **kw)
+                ref = _snap(r1)
+                for a in _arrays(r1):
+                    if a.dtype.kind == "f" and a.flags.writeable:
+                        a *= 3.0
+                        a += 1.0
+                r2 = fn(*args, **kw)
+                r3 = fn(*args, **kw)
+        except Exception as e:  # noqa
+            ck.fail("state/raises", "%s raised %s: %s in a repeated-call sequence" % (label, type(e).__name__, e), rep)
+            continue
+        ncall += 1
+        fname = label.split("(")[0]
+        ck.count(("state", label), bucket="state:%s" % fname)
+        if not _same(_snap(r2), ref):
+            ck.fail("state/result-depends-on-earlier-returned-array/%s" % fname,
+                    "%s returns a different value after the caller modified the arrays returned by the previous identical call (shared / cached memory)" % label, rep)
+        elif not _same(_snap(r3), ref):
+            ck.fail("state/repeated-call-differs/%s" % fname, "%s returns different values on repeated identical calls" % label, rep)
+        A2, A3 = _arrays(r2), _arrays(r3)
+        if any(np.shares_memory(x, y) for x in A2 for y in A3) or any(np.shares_memory(x, y) for x in _arrays(r1) for y in A2):
+            ck.fail("state/results-share-memory/%s" % fname, "two calls of %s return arrays that share memory" % label, rep)
+        if not _same(_snap(args), a0):
+            ck.fail("state/argument-modified/%s" % fname, "%s modified one of its array arguments" % label, rep)
+    # the same Paradigm / frametimes objects reused for several designs: results must not depend on the history
+    seq = []
+    for k in range(3):
+        for model in ("canonical with derivative", "fir", "spm_time_dispersion"):
+            with warnings.catch_warnings():
+                warnings.simplefilter("ignore")
+                d = dm.make_dmtx(ft, par, model, "polynomial", drift_order=2, fir_delays=[0, 1], add_regs=add)
+            seq.append((model, np.asarray(d.matrix).copy(), list(d.names)))
+            np.asarray(d.matrix)[...] = 7.0          # the caller scribbles over the returned design
+            ncall += 1
+            ck.count(("state-dmtx", k, model), bucket="state:make_dmtx-object-reuse")
+    for model, X, names in seq[3:]:
+        X0, names0 = [(x, nm) for (m_, x, nm) in seq[:3] if m_ == model][0]
+        if names != names0 or X.shape != X0.shape or not np.array_equal(X, X0):
+            ck.fail("state/make_dmtx-object-reuse", "make_dmtx(%r) on the same frametimes / Paradigm / add_regs objects differs from its first result after "
+                    "the previous designs were overwritten in place" % model, {"hrf_model": model, "sequence": "3 x (3 models); each returned matrix filled with 7.0"})
+    if not np.array_equal(add, _snap(add)) or not np.array_equal(ft, 2.0 * np.arange(12)):
+        ck.fail("state/argument-modified/make_dmtx", "make_dmtx modified frametimes or add_regs", {})
+    ck.section("state", calls=ncall)
 
 
 # ------------------------------------------------------------------ section: property oracles on compute_regressor
@@ -803,8 +980,18 @@ def sec_dmtx(ck, hm, dm, ep):
         block = rng.random() < .5
         amp = rng.uniform(.5, 2, m) * rng.choice([-1.0, 1.0, 1.0], m)
         durs = rng.uniform(0.5, 3 * TR, m)
+        variant = ["plain", "plain", "zero-amplitude-condition", "duplicate-user-regressor", "user-column-of-ones",
+                   "condition-outside-window", "plain"][nd % 7]
+        if variant == "zero-amplitude-condition":
+            amp[con == ids[-1]] = 0.0
+        elif variant == "condition-outside-window":
+            on[con == ids[0]] = ft[-1] + 40 * TR + rng.uniform(0, 5, int((con == ids[0]).sum()))
         par = (ep.BlockParadigm(con, on, durs, amp) if block else ep.EventRelatedParadigm(con, on, amp))
         add = rng.standard_normal((n, nadd)) if nadd else None
+        if nadd and variant == "duplicate-user-regressor":
+            add[:, 1] = add[:, 0]
+        elif nadd and variant == "user-column-of-ones":
+            add[:, 1] = 1.0
         addn = ["mot_%d" % i for i in range(nadd)] if named else None
         delays = [0, 2, 3]
         rep0 = {"frametimes": "%g + %g*arange(%d)" % (start, TR, n), "condition_ids": ids, "hrf_model": model, "drift_model": dmodel, "hfcut": hfcut,
@@ -837,21 +1024,36 @@ def sec_dmtx(ck, hm, dm, ep):
             ck.fail("dmtx/duplicate-name", "make_dmtx returns duplicate column names %s" % names, rep)
         # blocks in order: conditions (sorted ids) x basis | user regressors | drifts | constant
         p = nb * len(ids)
-        sv = np.linalg.svd(X, compute_uv=False)
-        if X.shape[1] > n or sv.min() * 1e13 < sv.max():
-            # rank deficient at working precision: make_dmtx's _full_rank replaces the whole matrix by a regularised one (documented);
-            # only the shape / name checks apply
-            ck.count(("dmtx-reg", TR, n, tuple(ids), model), bucket="dmtx:regularised-by-full_rank")
-            terms.append("list_eqb String.eqb (dmtx_names show_nat %s %s %s %s %s) %s" % (
-                clist([cstr(s) for s in sorted(ids)]), COQ_MODEL[model], clist([cnat(x) for x in delays]),
-                clist([cstr(s) for s in (addn if addn is not None else ["reg%d" % k for k in range(nadd)])]),
-                cnat(drift.shape[1]), clist([cstr(s) for s in names])))
-            meta.append(rep)
-            continue
-        if nadd and not np.array_equal(X[:, p:p + nadd], add):
-            ck.fail("dmtx/user-regressor-block", "user regressors are not columns %d..%d of the design matrix" % (p, p + nadd), rep)
-        if not np.allclose(X[:, p + nadd:], drift, rtol=0, atol=1e-12):
-            ck.fail("dmtx/drift-block", "drift columns are not the last columns of the design matrix", rep)
+        # the matrix make_dmtx must return, assembled here from the pieces: condition blocks | user regressors | drifts
+        blocks = []
+        for cid in sorted(ids):
+            sel = con == cid
+            dur = par.duration[sel] if block else np.zeros(sel.sum())
+            with warnings.catch_warnings():
+                warnings.simplefilter("ignore")
+                c, _ = hm.compute_regressor((on[sel], dur, par.amplitude[sel]), model, ft, cid, 1 if model == "fir" else 16, delays)
+            blocks.append(np.asarray(c, float).reshape(n, -1))
+        raw = np.hstack(blocks + ([add] if nadd else []) + [drift])
+        sv = np.linalg.svd(raw, compute_uv=False)
+        reg = raw.shape[1] > n or sv.min() * 1e15 <= sv.max() * (1 + 1e-6)
+        near = (not reg) and sv.min() * 1e15 <= sv.max() * 1e2        # too close to the threshold to predict the branch
+        scale = max(1.0, float(np.max(np.abs(raw))))
+        rtag = "/regularised-by-full_rank" if reg else ""
+        rep["variant"] = variant
+        rep["singular_at_working_precision"] = bool(reg)
+        ck.count(("dmtx-kind", nd), bucket="dmtx:%s:%s" % (variant, "regularised-by-full_rank" if reg else "full-rank"))
+        # _full_rank: a full-rank design is returned unchanged; a singular one moves by lda*U.V, lda ~ 1e-15 * s_max
+        tol_user = 0.0 if not (reg or near) else 1e-9 * scale
+        if nadd and np.max(np.abs(X[:, p:p + nadd] - add)) > tol_user:
+            ck.fail("dmtx/user-regressor-block" + rtag, "user regressors are not columns %d..%d of the design matrix (max abs diff %g)" % (
+                p, p + nadd, np.max(np.abs(X[:, p:p + nadd] - add))), rep)
+        if np.max(np.abs(X[:, p + nadd:] - drift)) > (1e-12 if not reg else 1e-9 * scale):
+            ck.fail("dmtx/drift-block" + rtag, "drift columns are not the last columns of the design matrix (max abs diff %g)" % np.max(np.abs(X[:, p + nadd:] - drift)), rep)
+        if np.max(np.abs(X - raw)) > (1e-10 if not reg else 1e-9) * scale:
+            j = int(np.argmax(np.max(np.abs(X - raw), axis=0)))
+            ck.fail(("dmtx/condition-block" if j < p else "dmtx/assembled-matrix") + rtag,
+                    "make_dmtx differs from [condition regressors | user regressors | drifts] by %g in column %d (%s)%s" % (
+                        np.max(np.abs(X - raw)), j, names[j], "; the design is singular at working precision, so _full_rank may move it by ~1e-15*s_max only" if reg else ""), rep)
         if start != 0 and dmodel.lower() in ("cosine", "blank"):
             # the drift block of the design depends on the scan index only, not on the time origin
             with warnings.catch_warnings():
@@ -865,18 +1067,8 @@ def sec_dmtx(ck, hm, dm, ep):
             elif np.max(np.abs(drift0 - drift)) > 1e-12:
                 ck.fail("drift/cosine-not-origin-invariant", "make_dmtx drift block changes by %g when the time origin moves from 0 to %g" % (
                     np.max(np.abs(drift0 - drift)), start), rep)
-        if names[-1] != "constant" or not np.allclose(X[:, -1], X[0, -1]) or X[0, -1] == 0:
+        if names[-1] != "constant" or not np.allclose(X[:, -1], X[0, -1], rtol=1e-9) or X[0, -1] == 0:
             ck.fail("dmtx/constant-last", "last column is not a non-zero constant named 'constant'", rep)
-        for j, cid in enumerate(sorted(ids)):
-            sel = con == cid
-            dur = par.duration[sel] if block else np.zeros(sel.sum())
-            with warnings.catch_warnings():
-                warnings.simplefilter("ignore")
-                c, _ = hm.compute_regressor((on[sel], dur, par.amplitude[sel]), model, ft, cid, 1 if model == "fir" else 16, delays)
-            c = np.asarray(c, float).reshape(n, -1)
-            if not np.allclose(X[:, j * nb:(j + 1) * nb], c, rtol=0, atol=1e-10):
-                ck.fail("dmtx/condition-block", "columns %d..%d are not the regressors of condition %r" % (j * nb, (j + 1) * nb, cid), rep)
-                break
         # the listing order of the events is irrelevant (theorem main_regressor_independent_of_listing_order)
         pm = rng.permutation(m) if nd % 2 else np.argsort(on, kind="stable")
         par2 = (ep.BlockParadigm(con[pm], on[pm], durs[pm], amp[pm]) if block else ep.EventRelatedParadigm(con[pm], on[pm], amp[pm]))
@@ -1001,6 +1193,7 @@ def run(ck):
     import traceback
     for name, fn, args in (("oracles", sec_oracles, (ck, hm)), ("hr", sec_hr, (ck, hm)), ("regressor", sec_regressor, (ck, hm)),
                            ("convolve", sec_convolve, (ck, hm, dm, ep)),
+                           ("full_rank", sec_full_rank, (ck, dm)), ("state", sec_state, (ck, hm, dm, ep)),
                            ("dmtx", sec_dmtx, (ck, hm, dm, ep)), ("paradigm", sec_paradigm, (ck, ep))):
         t0 = time.time()
         try:
